@@ -35,6 +35,7 @@ def run(ctx):
         ctx.rule("R-C11-FINAL", "finalize() and reset() report the same pending-byte count from every decoder state (what the reader "
                  "front-ends attach to an I/O error / EOF equals what the iterator front-ends report as trailing DiscardedBytes)")
         check_final_reset(ctx, A, F, an, "R-C11-FINAL")
+        ctx.include("C17", "'returned together with the exact number of not-yet-reported bytes it discards': the reader reports reset()'s value (R-C11-RESET); that this value is the number of bytes consumed since the last boundary is the byte-accounting property")
     except (AnchorMissing, Unsupported, KeyError) as e:
         ctx.violation("ANCHOR-MISSING", "reader", ("", 0, ""), "%s: %s" % (type(e).__name__, e))
     ctx.assumptions = [ASSUMPTIONS[k] for k in ("A1", "A2", "A4", "A6")]
